@@ -34,6 +34,9 @@ type Client struct {
 	got     map[uint32]int // seq -> number of well-formed replies
 	wg      sync.WaitGroup
 	Sent    int
+	sentTo  map[uint32]int   // seq -> relay-address epoch in which it was first sent
+	epochs  []netip.AddrPort // relay address of each epoch (a new epoch starts with every SetServer)
+	nsent   map[uint32]int   // seq -> number of transmissions
 	lastPkt []byte
 	ackPkt  []byte            // wire bytes of the latest datagram that was echoed on its first transmission
 	sent    map[uint32][2]int // seq -> (dest, fill) of the first transmission
@@ -41,7 +44,8 @@ type Client struct {
 
 // NewClient opens the first socket of a session.
 func NewClient(w *World, id uint16, codec ClientCodec, server netip.AddrPort) (*Client, error) {
-	c := &Client{ID: id, Codec: codec, Server: server, world: w, sentOn: map[uint32]int{}, got: map[uint32]int{}, sent: map[uint32][2]int{}}
+	c := &Client{ID: id, Codec: codec, Server: server, world: w, sentOn: map[uint32]int{}, got: map[uint32]int{}, sent: map[uint32][2]int{},
+		sentTo: map[uint32]int{}, nsent: map[uint32]int{}, epochs: []netip.AddrPort{server}}
 	c.cond = sync.NewCond(&c.mu)
 	if err := c.Rebind(); err != nil {
 		return nil, err
@@ -117,11 +121,14 @@ func (c *Client) Send(seq uint32, dest int, fill int) error {
 	if _, ok := c.sentOn[seq]; !ok {
 		c.sentOn[seq] = idx
 		c.sent[seq] = [2]int{dest, fill}
+		c.sentTo[seq] = len(c.epochs) - 1
 	}
+	c.nsent[seq]++
 	c.Sent++
 	c.lastPkt = pkt
+	server := c.Server
 	c.mu.Unlock()
-	_, err = s.WriteToUDPAddrPort(pkt, c.Server)
+	_, err = s.WriteToUDPAddrPort(pkt, server)
 	return err
 }
 
@@ -153,12 +160,17 @@ func (c *Client) BurstFills(dests []int, fills []int) {
 		c.mu.Lock()
 		c.sentOn[seq] = idx
 		c.sent[seq] = [2]int{dest, fill}
+		c.sentTo[seq] = len(c.epochs) - 1
+		c.nsent[seq]++
 		c.Sent++
 		c.mu.Unlock()
 		pkts = append(pkts, pkt)
 	}
+	c.mu.Lock()
+	server := c.Server
+	c.mu.Unlock()
 	for _, pkt := range pkts {
-		s.WriteToUDPAddrPort(pkt, c.Server)
+		s.WriteToUDPAddrPort(pkt, server)
 	}
 }
 
@@ -166,8 +178,9 @@ func (c *Client) BurstFills(dests []int, fills []int) {
 func (c *Client) SendRaw(b []byte) error {
 	c.mu.Lock()
 	s := c.socks[len(c.socks)-1]
+	server := c.Server
 	c.mu.Unlock()
-	_, err := s.WriteToUDPAddrPort(b, c.Server)
+	_, err := s.WriteToUDPAddrPort(b, server)
 	return err
 }
 
@@ -221,6 +234,25 @@ func (c *Client) SentOn(seq uint32) (int, bool) {
 	i, ok := c.sentOn[seq]
 	return i, ok
 }
+
+// SetServer makes later datagrams go to another client-facing address of the relay (new epoch).
+func (c *Client) SetServer(a netip.AddrPort) {
+	c.mu.Lock()
+	c.Server = a
+	c.epochs = append(c.epochs, a)
+	c.mu.Unlock()
+}
+
+// SentTo returns the relay-address epoch in which seq was first sent; Epochs lists the relay address of every epoch.
+func (c *Client) SentTo(seq uint32) int { c.mu.Lock(); defer c.mu.Unlock(); return c.sentTo[seq] }
+func (c *Client) Epochs() []netip.AddrPort {
+	c.mu.Lock()
+	defer c.mu.Unlock()
+	return append([]netip.AddrPort(nil), c.epochs...)
+}
+
+// Transmissions returns how many times seq was put on the wire by the harness.
+func (c *Client) Transmissions(seq uint32) int { c.mu.Lock(); defer c.mu.Unlock(); return c.nsent[seq] }
 
 // SentInfo returns the destination and fill of seq.
 func (c *Client) SentInfo(seq uint32) (dest, fill int, ok bool) {
